@@ -49,7 +49,8 @@ PROP = {'drive': ['Total'] + ['Total' + g for g in _GROUPS],
                        'C02_gpos31_no_panic', 'C02_gpos_dispatch_no_panic', 'C02_anchor_no_panic', 'C02_markarray_no_panic',
                        'C02_gpos11_cost', 'C02_gpos12_cost', 'C02_gpos21_cost_partial', 'C02_gpos22_cost',
                        'C02_gpos31_cost', 'C02_markarray_cost', 'C02_gpos11_agrees', 'C02_gpos12_agrees',
-                       'C02_gsub_dispatch_agrees', 'C02_gsub_dispatch_unrepaired_collision', 'C02_chain_dispatch_agrees', 'C02_seqctx_dispatch_agrees', 'C02_gpos_dispatch_agrees', 'C02_lookuplist_no_ext_ext', 'C02_lookuplist_no_ext_ext_gpos', 'C02_lookuplist_ext_ext_rejected'],
+                       'C02_gsub_dispatch_agrees', 'C02_gsub_dispatch_unrepaired_collision', 'C02_chain_dispatch_agrees', 'C02_seqctx_dispatch_agrees', 'C02_gpos_dispatch_agrees', 'C02_lookuplist_no_ext_ext', 'C02_lookuplist_no_ext_ext_gpos', 'C02_lookuplist_ext_ext_rejected',
+                       'C02_gpos51_no_panic', 'C02_gpos51_cost_partial', 'C02_gpos51_unrepaired_panics'],
  'areas': [('total', 3000, 28000)],
  'rule': 'distinct case lines (decoder, bytes); non-trivial = input of at least 4 bytes',
  'partial': [
@@ -59,7 +60,7 @@ PROP = {'drive': ['Total'] + ['Total' + g for g in _GROUPS],
      'os2.Read, post.Read, name.Decode + utf16Decode, CFF readIndex/readIndexAt, coverage.Read/ReadSet, classdef.Read; tier B: CFF '
      'decodeDict/decodeFloat, readCharset/readEncoding/readFDSelect (+ the FDSelect closure), readScriptList/readScriptTable/'
      'readLangSysTable/readFeatureList + the gtab.Read header, readLookupList + readExtensionSubtable + both subtable dispatchers, '
-     'GSUB 1.1/1.2/2.1/3.1/4.1/8.1, readNested + SeqContext1/2/3, ChainedSeqContext1/2/3, GPOS 1.1/1.2/2.1/2.2/3.1, anchor.Read, '
+     'GSUB 1.1/1.2/2.1/3.1/4.1/8.1, readNested + SeqContext1/2/3, ChainedSeqContext1/2/3, GPOS 1.1/1.2/2.1/2.2/3.1/5.1 (5.1 as repaired by 33f30d8), anchor.Read, '
      'markarray.Read (Props/C02.lean and Props/C02B.lean)',
      'cost clause TRUE ONLY IN A WEAKER FORM (proved as *_cost_partial; the negation of the linear clause proved where a *_fails / '
      '*_alias theorem is listed): gdef.Read, name.Decode, cmap.Decode (quadratic steps), readScriptList (cubic), readLookupList '
@@ -67,7 +68,7 @@ PROP = {'drive': ['Total'] + ['Total' + g for g in _GROUPS],
      'visit is charged); caps tested only AFTER the work: GSUB 4.1, SeqContext2, ChainedSeqContext2; linear plus a constant cap: '
      'decodeFormat4/12, coverage, classdef, SimpleGlyph.Decode, readFeatureList, GPOS 1.x/2.2/3.1, ChainedSeqContext1',
      'modelled: no / proved: no (fuzz-tied only, stream D:total.<decoder> and total.adv families; search, not proof): sfnt.Read '
-     '(table merge), cff.Read top level (Top DICT interpretation, readPrivate, charstring interpreter: see C05/C13), GPOS 4.1/5.1/6.1 '
+     '(table merge), cff.Read top level (Top DICT interpretation, readPrivate, charstring interpreter: see C05/C13), GPOS 4.1/6.1 '
      'readers; bridges missing: SeqContext1/2 top level, GPOS 2.1, script table/script list/feature list to the C08 models',
      'C02_lazy_safe is proved for SimpleGlyph.Decode (every value), Components, Table.Get, the format 0/4/6/12 Lookup/CodeRange and the '
      'FDSelect closure; the remaining accessors (Font.Widths/GlyphBBoxes/GlyphName/..., re-encoding, GetBest, Context.Apply) are only '
